@@ -35,6 +35,13 @@ CHECKS = {
         assumptions=["'cannot be parsed' is what Go's net.SplitHostPort/ParseIP reject (after dropping an IPv6 zone); the parser itself is outside the model",
                      "access-key ids, country/ASN data and the server's own listen address are not client addresses"],
     ),
+    "C17": dict(
+        level="proof",
+        campaigns=[dict(engine="metrics", n=n(250, 5000))],
+        trusted_base=["model Model/TunnelTime.lean (activeClients, startConnection, stopConnection, reportTunnelTime, Collect) and Model/Metrics.lean (the callers) of prometheus/metrics.go, hand-written, tied by the `metrics` campaign: real collectors on a private registry, clock stubbed through the verif hook (prometheus/verif_export.go VerifSetNow), gathered tunnel_time_seconds* compared after every scrape with the model and with independent interval arithmetic"],
+        assumptions=["the clock is non-decreasing (time.Now is monotonic in Go); time is whole seconds in the model, the campaign advances the clock in whole and fractional seconds and compares floor values where the code truncates",
+                     "stops are matched with starts: C15 (authenticated iff authentication succeeded, closed once) and C16 (added once, removed once)"],
+    ),
     "C02": dict(level="proof", campaigns=[TCP_CAMP], trusted_base=TCP_TB, assumptions=TCP_AS),
     "C06": dict(level="proof", campaigns=[TCP_CAMP], trusted_base=TCP_TB, assumptions=TCP_AS),
     "C15": dict(level="proof", campaigns=[TCP_CAMP], trusted_base=TCP_TB, assumptions=TCP_AS + ["a handler panic would skip AddClosed: conditional on C18"]),
@@ -46,7 +53,8 @@ CHECKS = {
     ),
     "C19": dict(
         level="proof",
-        campaigns=[dict(engine="conc", n=n(20, 400), race=True), dict(engine="lockstress", n=n(40, 800), netns=True, race=True)],
+        campaigns=[dict(engine="conc", n=n(20, 400), race=True), dict(engine="lockstress", n=n(40, 800), netns=True, race=True),
+                   dict(engine="metrics", n=n(120, 2500), race=True)],
         trusted_base=LOCK_TB,
         assumptions=["a field classified immutable/guarded in Props/C19.lean is shared; fields confined to one goroutine (natconn.readDeadline, tcpConnMetrics.accessKey, ProxyMetrics) are outside the claim and only watched by the race detector"],
     ),
